@@ -125,6 +125,26 @@ theorem dimensionCast_rank_ok {sl dl : Layer} {lv : Bool} {dc : Option (Dim × D
          | (apply vecRank_vec_vec; assumption))
     | (simp at h; done)
 
+theorem vecRank_scalar_matrix (x y : Nat) : ∃ v, vecRankOf (some (.scalar, .matrix x y)) = some v :=
+  ⟨.expand, by simp [vecRankOf]⟩
+
+/-- since /repo 368a51b (`Some(DimensionCast(Scalar, Matrix(_, _))) => VectorRank::Expand`): every dimension cast
+    that `find` can produce has an arm in `get_rank` -/
+theorem dimensionCast_rank_total {sl dl : Layer} {lv : Bool} {dc : Option (Dim × Dim)}
+    (h : dimensionCast sl dl lv = some dc) : ∃ v, vecRankOf dc = some v := by
+  unfold dimensionCast at h
+  repeat' split at h
+  all_goals first
+    | (simp only [Option.some.injEq] at h; subst h
+       first
+         | exact ⟨_, rfl⟩
+         | exact vecRank_vec_scalar _
+         | exact vecRank_scalar_vec _
+         | exact vecRank_one_vec _
+         | exact vecRank_scalar_matrix _ _
+         | (apply vecRank_vec_vec; assumption))
+    | (simp at h; done)
+
 theorem find_dimCast {a d : ETy} {c : Conversion} (h : find a d = .ok (some c)) :
     dimensionCast a.ty.layer d.ty.layer (decide (d.vt = .lvalue)) = some c.dimCast := by
   unfold find at h
@@ -342,5 +362,53 @@ theorem exactMatch_iff_typeExact {args : List ETy} {c : Cand}
 
 theorem onGrid_not_matrix {l : Layer} (h : OnGrid l) : ¬ IsMatrix l := by
   cases l <;> simp_all [OnGrid, IsMatrix]
+
+/-! ## after /repo 368a51b: no panic at all -/
+
+/-- `find` followed by `get_rank` never panics -/
+theorem findRank_total (a d : ETy) : ∃ r, findRank a d = .ok r := by
+  unfold findRank
+  obtain ⟨r, hr⟩ := find_no_panic a d
+  rw [hr]
+  cases r with
+  | none => exact ⟨_, rfl⟩
+  | some c =>
+    simp only []
+    obtain ⟨v, hv⟩ := dimensionCast_rank_total (find_dimCast hr)
+    simp only [getRank, hv]
+    exact ⟨_, rfl⟩
+
+theorem zipRanks_total : ∀ (ps : List Param) (as : List ETy), ∃ r, zipRanks ps as = .ok r
+  | [], _ => ⟨some [], by simp [zipRanks]⟩
+  | _ :: _, [] => ⟨some [], by simp [zipRanks]⟩
+  | p :: ps, a :: as => by
+    simp only [zipRanks]
+    obtain ⟨r, hr⟩ := find_no_panic a p.ety
+    rw [hr]
+    cases r with
+    | none => exact ⟨_, rfl⟩
+    | some c =>
+      simp only []
+      obtain ⟨r', hr'⟩ := zipRanks_total ps as
+      rw [hr']
+      cases r' with
+      | none => exact ⟨_, rfl⟩
+      | some rs =>
+        simp only []
+        obtain ⟨x, hx⟩ := findRank_total a p.ety
+        rw [getRank_of_findRank hr] at hx
+        cases hg : getRank c with
+        | error e => rw [hg] at hx; simp at hx
+        | ok r => exact ⟨_, rfl⟩
+
+/-- no modelled panic site is reachable, for any candidates and arguments -/
+theorem noPanic_always (cands : List Cand) (args : List ETy) : NoPanic cands args := by
+  intro c _
+  unfold rankCand
+  split
+  · obtain ⟨r, hr⟩ := zipRanks_total c.params args
+    rw [hr]
+    cases r <;> rfl
+  · rfl
 
 end RsslVerif.Lemmas.Conv
